@@ -6,9 +6,20 @@ NS = "Hw.Props.C18."
 THEOREMS = [NS + t for t in """C18_cpulist_spec C18_cpulist_safe C18_cpulist_empty C18_cpulist_overflow_reachable C18_strtoul_agrees
 C18_cpumask_spec C18_cpumask_safe C18_cpumask_finite C18_readfd_bounds C18_readfd_zero_hangs
 C18_wf_oracle_exact C18_same_oracle_exact C18_disallowed_oracle_exact C18_xml_oracle_exact C18_same_equivalence C18_xml_equivalence
-C18_disallowed_refl C18_disallowed_congr C18_disallowed_inclusion C18_disallowed_objects_trans""".split()]
+C18_disallowed_refl C18_disallowed_congr C18_disallowed_inclusion C18_disallowed_objects_trans
+C18_readlen_bounds C18_readlen_fails_iff C18_readers_prefix C18_cstr_inside C18_uint_value
+C18_uint64_value C18_int_value C18_num_ranges C18_meminfo_first_key C18_meminfo_keeps_iff
+C18_strstr_first C18_hugepages_safe C18_fgets_bounds C18_cgname_cpuset_wins C18_cgname_first_match
+C18_cgname_terminates C18_cgname_kernel C18_cgname_line_forms C18_cgname_safe C18_mntpnt_standard
+C18_mntpnt_first_match C18_mntpnt_rule C18_mntpnt_buffers C18_admin_path C18_admin_replaces
+C18_allowed_compose
+C18_meminfo_kernel C18_mntpnt_kernel C18_mntpnt_terminates""".split()]
 CHECK_MODULES = ["Hw.Props.C18"]
-TRUSTED = ["libc number scanning (strtoul base 0 with signs, sscanf %lx) is modelled by Hw.LinuxParse.scanNum (differential-tested through both parsers; "
+TRUSTED = ["(A9) glibc 2.36 getmntent_r (fgets into the 4-page buffer, forgetting the rest of an over-long line through a 1024-byte buffer, "
+           "strsep on blanks, decode_name), fgets, strstr, strsep, atoi/strtol, snprintf(\"%s\") truncation are modelled in Hw/Io/LinuxCgroup.lean / LinuxNum.lean "
+           "(differential-tested through the real callers on every run); the kernel resolves a path below the fsroot as in a tree of plain directories "
+           "(empty and `.` components dropped; inputs containing `..` are answered `fsdep` and not compared); read() delivers these small files in one call",
+           "libc number scanning (strtoul base 0 with signs, sscanf %lx) is modelled by Hw.LinuxParse.scanNum (differential-tested through both parsers; "
            "agrees with the C04 strtoul model wherever that is defined: C18_strtoul_agrees); read() returns at most the requested count",
            "harness/dump.h as a faithful reading of a topology through the public API; lean/Driver/Topo.lean as its parser",
            "PARTIAL: the Linux and x86 back ends themselves are NOT modelled; that every load is clean / well-formed / deterministic / "
@@ -22,7 +33,9 @@ ASSUMPTIONS = ["cpulist differential domain: every index reaching the bitmap lay
                "NO_DISTANCES, NO_MEMATTRS, NO_CPUKINDS}; removable paths = regular files, symlinks, directories whose name does not end in a digit",
                "known findings excluded by class (switches in tools/eng_snapshots.py): C18-F2 (XML reload changes complete_cpuset of memory objects), "
                "C18-F3 (hwloc_topology_check assertion `!prev_empty' after topology files were removed)"]
-MODELLED = ("modelled literally: hwloc__read_fd, hwloc__read_path_as_cpulist, hwloc__read_path_as_cpumask (topology-linux.c 700-945); relations over dumps; "
+MODELLED = ("modelled literally: hwloc__read_fd, hwloc__read_path_as_cpulist, hwloc__read_path_as_cpumask (topology-linux.c 700-945); "
+            "(A9) hwloc_read_path_by_length / _as_int / _as_uint / _as_uint64, hwloc_parse_meminfo_info, hwloc_parse_hugepages_info, "
+            "hwloc_find_linux_cgroup_mntpnt, hwloc_read_linux_cgroup_name, hwloc_admin_disable_set_from_cgroup, hwloc_linux__get_allowed_resources; relations over dumps; "
             "not modelled (exercised by the snapshots engine under ASan/UBSan/LSan with proved oracles): everything else in topology-linux.c, topology-x86.c, "
             "components.c, the core discovery pipeline")
 
